@@ -552,6 +552,24 @@ func (p *PruneSolver) Feasible(assumes []*Term) bool {
 	return true
 }
 
+// Status: "sat" / "unsat" / "unknown" for the quantifier-free part of a path condition (2 s, z3 5.1).
+func (p *PruneSolver) Status(assumes []*Term) string {
+	s := NewScript()
+	var asserts []string
+	for _, a := range assumes {
+		if hasQuant([]*Term{a}) {
+			continue
+		}
+		asserts = append(asserts, s.Ref(a))
+	}
+	script := s.Render("", "", nil, asserts, "(check-sat)\n")
+	st, _, _ := runSolver(solverConfigs(2, 0)[0], script, 3*time.Second)
+	if st == "sat" || st == "unsat" {
+		return st
+	}
+	return "unknown"
+}
+
 func constSMTAny(t *Term) string {
 	if t == NilAddr {
 		return "(mkaddr 0 pnil)"
